@@ -30,6 +30,7 @@ func (m *Mutex) Lock() {
 	s.Point(simrt.KSync, "Mutex.Lock")
 	s.Block("Mutex.Lock", func() bool { return !m.held })
 	m.held = true
+	s.Acquire(m)
 }
 
 func (m *Mutex) TryLock() bool {
@@ -45,6 +46,7 @@ func (m *Mutex) TryLock() bool {
 		return false
 	}
 	m.held = true
+	s.Acquire(m)
 	return true
 }
 
@@ -60,6 +62,7 @@ func (m *Mutex) Unlock() {
 	if !m.held {
 		panic("sync: unlock of unlocked mutex")
 	}
+	s.Release(m)
 	m.held = false
 	s.Point(simrt.KSync, "Mutex.Unlock")
 }
@@ -84,6 +87,7 @@ func (m *RWMutex) RLock() {
 	s.Point(simrt.KSync, "RWMutex.RLock")
 	s.Block("RWMutex.RLock", func() bool { return !m.writer && m.writersWaiting == 0 })
 	m.readers++
+	s.Acquire(m)
 }
 
 func (m *RWMutex) TryRLock() bool {
@@ -99,6 +103,7 @@ func (m *RWMutex) TryRLock() bool {
 		return false
 	}
 	m.readers++
+	s.Acquire(m)
 	return true
 }
 
@@ -114,6 +119,7 @@ func (m *RWMutex) RUnlock() {
 	if m.readers <= 0 {
 		panic("sync: RUnlock of unlocked RWMutex")
 	}
+	s.Release(&m.readers) // read sections are ordered before the next write section, not among themselves
 	m.readers--
 	s.Point(simrt.KSync, "RWMutex.RUnlock")
 }
@@ -135,6 +141,8 @@ func (m *RWMutex) Lock() {
 	}
 	m.writersWaiting--
 	m.writer = true
+	s.Acquire(m)
+	s.Acquire(&m.readers)
 }
 
 func (m *RWMutex) TryLock() bool {
@@ -150,6 +158,8 @@ func (m *RWMutex) TryLock() bool {
 		return false
 	}
 	m.writer = true
+	s.Acquire(m)
+	s.Acquire(&m.readers)
 	return true
 }
 
@@ -165,6 +175,7 @@ func (m *RWMutex) Unlock() {
 	if !m.writer {
 		panic("sync: Unlock of unlocked RWMutex")
 	}
+	s.Release(m)
 	m.writer = false
 	s.Point(simrt.KSync, "RWMutex.Unlock")
 }
@@ -216,6 +227,7 @@ func (c *Cond) Wait() {
 		return
 	}
 	c.L.Lock()
+	s.Acquire(c)
 }
 
 func (c *Cond) Signal() {
@@ -228,6 +240,7 @@ func (c *Cond) Signal() {
 		return
 	}
 	s.Point(simrt.KSync, "Cond.Signal")
+	s.Release(c)
 	if len(c.waiters) == 0 {
 		return
 	}
@@ -246,6 +259,7 @@ func (c *Cond) Broadcast() {
 		return
 	}
 	s.Point(simrt.KSync, "Cond.Broadcast")
+	s.Release(c)
 	for _, w := range c.waiters {
 		w.signaled = true
 	}
@@ -275,14 +289,16 @@ func (o *Once) Do(f func()) {
 	}
 	s.Point(simrt.KSync, "Once.Do")
 	if o.done {
+		s.Acquire(o)
 		return
 	}
 	if o.running {
 		s.Block("Once.Do", func() bool { return o.done })
+		s.Acquire(o)
 		return
 	}
 	o.running = true
-	defer func() { o.done = true }()
+	defer func() { s.Release(o); o.done = true }()
 	f()
 }
 
@@ -302,6 +318,9 @@ func (w *WaitGroup) Add(delta int) {
 		return
 	}
 	s.Point(simrt.KSync, "WaitGroup.Add")
+	if delta < 0 {
+		s.Release(w)
+	}
 	w.n += delta
 	if w.n < 0 {
 		panic("sync: negative WaitGroup counter")
@@ -321,6 +340,7 @@ func (w *WaitGroup) Wait() {
 	}
 	s.Point(simrt.KSync, "WaitGroup.Wait")
 	s.Block("WaitGroup.Wait", func() bool { return w.n == 0 })
+	s.Acquire(w)
 }
 
 // OnceFunc / OnceValue are not mirrored; the instrumenter rejects any other member of sync.
@@ -341,6 +361,7 @@ func (p *Pool) Get() any {
 	}
 	if !s.Ending() {
 		s.Point(simrt.KSync, "Pool.Get")
+		s.Acquire(p)
 	}
 	if n := len(p.items); n > 0 {
 		x := p.items[n-1]
@@ -364,6 +385,7 @@ func (p *Pool) Put(x any) {
 	}
 	if !s.Ending() {
 		s.Point(simrt.KSync, "Pool.Put")
+		s.Release(p)
 	}
 	p.items = append(p.items, x)
 }
@@ -380,6 +402,7 @@ func (m *Map) pt(site string) *simrt.Sim {
 	s := simrt.S()
 	if s != nil && !s.Ending() {
 		s.Point(simrt.KSync, site)
+		s.AcqRel(m)
 	}
 	return s
 }
